@@ -25,7 +25,12 @@ pub struct CapCtx<'a> {
 	pub mask: Option<u64>,
 	pub enum_as_u64: bool,
 	pub duration_as_bytes: bool,
+	/// `Some(seed)`: per node, a coin decides whether an *alternative* serde hint is used (deserialize_option for
+	/// nullable unions, deserialize_str for bytes / fixed, deserialize_i128 / u64 / f64 for decimals,
+	/// deserialize_identifier for ints, deserialize_string / byte_buf / char ...): the paths a typed target would take
+	pub alt: Option<u64>,
 	field_ctr: Cell<u64>,
+	alt_ctr: Cell<u64>,
 }
 impl<'a> CapCtx<'a> {
 	pub fn new(env: &'a Env) -> Self {
@@ -37,7 +42,26 @@ impl<'a> CapCtx<'a> {
 			mask: None,
 			enum_as_u64: false,
 			duration_as_bytes: false,
+			alt: None,
 			field_ctr: Cell::new(0),
+			alt_ctr: Cell::new(0),
+		}
+	}
+	/// 0 = use the default hint; otherwise a small number selecting an alternative
+	fn alt_choice(&self) -> u64 {
+		match self.alt {
+			None => 0,
+			Some(seed) => {
+				let n = self.alt_ctr.get();
+				self.alt_ctr.set(n + 1);
+				let mut x = seed ^ n.wrapping_mul(0xD134_2543_DE82_EF95);
+				let r = crate::prng::splitmix(&mut x);
+				if r & 1 == 0 {
+					0
+				} else {
+					1 + (r >> 8) % 4
+				}
+			}
 		}
 	}
 	pub fn masked(env: &'a Env, seed: u64) -> Self {
@@ -146,6 +170,10 @@ impl<'de, 'a> Visitor<'de> for ScalarV<'a> {
 		self.0.tick();
 		Ok(Raw::I128(v))
 	}
+	fn visit_u128<E: de::Error>(self, v: u128) -> Result<Raw, E> {
+		self.0.tick();
+		Ok(Raw::I128(v as i128))
+	}
 	fn visit_f32<E: de::Error>(self, v: f32) -> Result<Raw, E> {
 		self.0.tick();
 		Ok(Raw::F32(v.to_bits()))
@@ -170,6 +198,76 @@ impl<'de, 'a> DeserializeSeed<'de> for Capture<'a> {
 		let ctx = self.ctx;
 		let ty = ctx.env.resolve(self.ty);
 		let sv = ScalarV(ctx);
+		let alt = ctx.alt_choice();
+		if alt != 0 {
+			// whatever comes back is recorded as it is: the comparison is slice path against reader path
+			let raw_to_val = |r: Raw| match r {
+				Raw::Unit => Val::Null,
+				Raw::Bool(b) => Val::Bool(b),
+				Raw::I64(v) => Val::Long(v),
+				Raw::U64(v) => Val::Decimal { unscaled: v as i128, scale: 0 },
+				Raw::I128(v) => Val::Decimal { unscaled: v, scale: 0 },
+				Raw::F32(b) => Val::Float(b),
+				Raw::F64(b) => Val::Double(b),
+				Raw::Str(s) => Val::Str(s),
+				Raw::Bytes(b) => Val::Bytes(b),
+			};
+			match ty {
+				Ty::Bytes | Ty::Fixed { .. } => {
+					return Ok(raw_to_val(match alt {
+						1 => d.deserialize_str(sv)?,
+						2 => d.deserialize_string(sv)?,
+						3 => d.deserialize_byte_buf(sv)?,
+						_ => d.deserialize_any(sv)?,
+					}))
+				}
+				Ty::String | Ty::Uuid => {
+					return Ok(raw_to_val(match alt {
+						1 => d.deserialize_string(sv)?,
+						2 => d.deserialize_bytes(sv)?,
+						3 => d.deserialize_identifier(sv)?,
+						_ => d.deserialize_any(sv)?,
+					}))
+				}
+				Ty::DecimalBytes { .. } | Ty::DecimalFixed { .. } | Ty::BigDecimal => {
+					return Ok(raw_to_val(match alt {
+						1 => d.deserialize_i128(sv)?,
+						2 => d.deserialize_u64(sv)?,
+						3 => d.deserialize_f64(sv)?,
+						_ => d.deserialize_i64(sv)?,
+					}))
+				}
+				Ty::Int | Ty::Long | Ty::Date | Ty::TimeMillis | Ty::TimeMicros | Ty::TimestampMillis | Ty::TimestampMicros => {
+					return Ok(raw_to_val(match alt {
+						1 => d.deserialize_identifier(sv)?,
+						2 => d.deserialize_u64(sv)?,
+						3 => d.deserialize_i64(sv)?,
+						_ => d.deserialize_any(sv)?,
+					}))
+				}
+				Ty::Enum { .. } => {
+					return Ok(raw_to_val(match alt {
+						1 => d.deserialize_u64(sv)?,
+						2 => d.deserialize_identifier(sv)?,
+						3 => d.deserialize_str(sv)?,
+						_ => d.deserialize_any(sv)?,
+					}))
+				}
+				Ty::Union(ts) if alt <= 2 => {
+					return d.deserialize_option(OptionV { branches: ts, ctx });
+				}
+				Ty::Duration { .. } => {
+					return match alt {
+						1 => d.deserialize_bytes(sv).map(raw_to_val),
+						2 => d.deserialize_seq(DurV { ctx }),
+						_ => d.deserialize_tuple_struct("D", 3, DurV { ctx }),
+					};
+				}
+				Ty::Record { fields, .. } if alt == 1 => return d.deserialize_map(RecV { fields, ctx }),
+				Ty::Array(t) if alt == 1 => return d.deserialize_tuple(0, SeqV { elem: t, ctx }),
+				_ => {}
+			}
+		}
 		match ty {
 			Ty::Null => match d.deserialize_unit(sv)? {
 				Raw::Unit => Ok(Val::Null),
@@ -377,6 +475,35 @@ impl<'de, 'a> Visitor<'de> for UnionV<'a> {
 		})();
 		self.ctx.leave();
 		r
+	}
+}
+
+/// `deserialize_option` on a union: `None` for the null branch, otherwise the inner value through a blind
+/// visitor (the crate picks the branch; which one is not observable on this route, so the value is kept raw)
+struct OptionV<'a> {
+	#[allow(dead_code)]
+	branches: &'a [Ty],
+	ctx: &'a CapCtx<'a>,
+}
+impl<'de, 'a> Visitor<'de> for OptionV<'a> {
+	type Value = Val;
+	fn expecting(&self, f: &mut fmt::Formatter) -> fmt::Result {
+		f.write_str("an option")
+	}
+	fn visit_none<E: de::Error>(self) -> Result<Val, E> {
+		self.ctx.tick();
+		Ok(Val::Null)
+	}
+	fn visit_unit<E: de::Error>(self) -> Result<Val, E> {
+		self.ctx.tick();
+		Ok(Val::Null)
+	}
+	fn visit_some<D: Deserializer<'de>>(self, d: D) -> Result<Val, D::Error> {
+		self.ctx.tick();
+		self.ctx.enter();
+		let r = Blind { callbacks: &self.ctx.callbacks }.deserialize(d);
+		self.ctx.leave();
+		r.map(|v| Val::Array(vec![v]))
 	}
 }
 
